@@ -388,7 +388,11 @@ def extract(log, k, scfile):
                             break
                         if te.startswith("with ") or te.startswith("return spec_cls.__new__"):
                             break
-                    ev.append((tid, f"EWRemove {w} {b(did)}"))
+                    if not did:  # nothing is written: the check is the whole step
+                        ev.append((tid, f"EWRemove {w} false"))
+                elif t.startswith("spec_cls.__new__ = ") or t.startswith("del spec_cls.__new__"):
+                    # check and removal happen under the lock; the step is placed at the write
+                    ev.append((tid, f"EWRemove {w} true"))
                 elif t.startswith("return spec_cls.__new__(cls"):
                     p = next_wrapper(i)
                     ev.append((tid, f"EWNext {w} " + ("None" if p is None else f"(Some {p})")))
